@@ -184,12 +184,6 @@ func runPayouts(c PayoutCase, cs *kit.CaseStats) error {
 			proofBranch = append(proofBranch, cur)
 		}
 	}
-	blocksOf := func(ns []*kit.TNode) (out []types.Block) {
-		for _, n := range ns {
-			out = append(out, n.Block)
-		}
-		return
-	}
 	var first, second []*kit.TNode
 	switch modInt(c.First, 4) {
 	case 0:
@@ -313,3 +307,172 @@ var c06PayoutsProp = kit.Prop[PayoutCase]{
 }
 
 func TestC06Payouts(t *testing.T) { c06PayoutsProp.Main(t) }
+
+// V2PayoutCase: one v2 contract whose renter/host output addresses are drawn
+// independently of the parties' keys, resolved differently on two sibling
+// branches (storage proof, renewal with independently drawn final output
+// addresses, expiration).
+type V2PayoutCase struct {
+	Maturity   int  `json:"maturity"`
+	RenterAddr int  `json:"renter_addr"`
+	HostAddr   int  `json:"host_addr"`
+	FinalR     int  `json:"final_renter_addr"` // renewal: address of the final renter output
+	FinalH     int  `json:"final_host_addr"`
+	NewR       int  `json:"new_renter_addr"` // renewal: output addresses of the new contract
+	NewH       int  `json:"new_host_addr"`
+	KindA      int  `json:"kind_a"` // 0 proof, 1 renew, 2 expire
+	KindB      int  `json:"kind_b"`
+	Only       bool `json:"only"` // only branch A
+	Chunk1     int  `json:"chunk1"`
+	Chunk2     int  `json:"chunk2"`
+	MidSync    bool `json:"mid_sync"`
+}
+
+func genV2Payouts(t *rapid.T) V2PayoutCase {
+	sel := rapid.IntRange(0, 3)
+	return V2PayoutCase{
+		Maturity:   rapid.IntRange(1, 3).Draw(t, "maturity"),
+		RenterAddr: sel.Draw(t, "renter-addr"), HostAddr: sel.Draw(t, "host-addr"),
+		FinalR: sel.Draw(t, "final-renter"), FinalH: sel.Draw(t, "final-host"),
+		NewR: sel.Draw(t, "new-renter"), NewH: sel.Draw(t, "new-host"),
+		KindA: kit.Uniform(t, 3, "kind-a"), KindB: kit.Uniform(t, 3, "kind-b"),
+		Only:    kit.Chance(t, 25, "only"),
+		Chunk1:  c06Chunks[kit.Uniform(t, len(c06Chunks), "chunk1")],
+		Chunk2:  c06Chunks[kit.Uniform(t, len(c06Chunks), "chunk2")],
+		MidSync: kit.Chance(t, 70, "midsync"),
+	}
+}
+
+var v2ResolutionKinds = []string{"v2proof", "v2renew", "v2expire"}
+
+func runV2Payouts(c V2PayoutCase, cs *kit.CaseStats) error {
+	tr := kit.BuildTree(kit.TreeCase{Net: kit.NetSpec{Maturity: clampInt(c.Maturity, 1, 3), Allow: 1, ReqOff: 0, CutOff: 0}})
+	gl := tr.Root.Ledger
+	w := kit.Actors[payoutWallet]
+	const renter, host = 0, 2
+	ts := tr.Genesis.Timestamp
+	add := func(parent *kit.TNode, txns []types.V2Transaction, salt int) (*kit.TNode, error) {
+		b, ok := kit.Normalize(kit.AssembleBlock(parent.Ledger.State, ts.Add(time.Duration(int(parent.Height)+1+salt)*time.Second), kit.Actors[3].Addr, nil, txns, 0))
+		if !ok {
+			return nil, fmt.Errorf("INFRA: block has no stable encoding")
+		}
+		n := tr.AddDynamic(b)
+		if n.Ledger == nil {
+			return nil, fmt.Errorf("INFRA: hand-built block at height %d is invalid: %v", parent.Height+1, n.Err)
+		}
+		return n, nil
+	}
+	sign := func(cs consensus.State, fc *types.V2FileContract) {
+		fc.RenterSignature, fc.HostSignature = types.Signature{}, types.Signature{}
+		h := cs.ContractSigHash(*fc)
+		fc.RenterSignature = kit.Actors[renter].SK.SignHash(h)
+		fc.HostSignature = kit.Actors[host].SK.SignHash(h)
+	}
+	// ---- block 1: formation, paid by the renter key's largest genesis output
+	var in types.SiacoinElement
+	for _, id := range gl.SortedSCIDs() {
+		if e := gl.SCE[id]; e.SiacoinOutput.Address == kit.Actors[renter].Addr && e.SiacoinOutput.Value.Cmp(in.SiacoinOutput.Value) > 0 {
+			in = e
+		}
+	}
+	leaf := kit.LeafData(5)
+	fc := types.V2FileContract{
+		Capacity: 64, Filesize: 64, FileMerkleRoot: gl.State.StorageProofLeafHash(leaf[:]),
+		ProofHeight: 3, ExpirationHeight: 5,
+		RenterOutput:    types.SiacoinOutput{Address: payoutAddr(c.RenterAddr), Value: types.Siacoins(20)},
+		HostOutput:      types.SiacoinOutput{Address: payoutAddr(c.HostAddr), Value: types.Siacoins(10)},
+		MissedHostValue: types.Siacoins(4), TotalCollateral: types.Siacoins(5),
+		RenterPublicKey: kit.Actors[renter].PK, HostPublicKey: kit.Actors[host].PK,
+	}
+	sign(gl.State, &fc)
+	cost := fc.RenterOutput.Value.Add(fc.HostOutput.Value).Add(gl.State.V2FileContractTax(fc))
+	form := types.V2Transaction{SiacoinInputs: []types.V2SiacoinInput{{Parent: in.Copy()}}, FileContracts: []types.V2FileContract{fc},
+		SiacoinOutputs: []types.SiacoinOutput{{Address: kit.Actors[renter].Addr, Value: in.SiacoinOutput.Value.Sub(cost)}}}
+	kit.SignV2(gl.State, &form)
+	b1, err := add(tr.Root, []types.V2Transaction{form}, 0)
+	if err != nil {
+		return err
+	}
+	b2, err := add(b1, nil, 0)
+	if err != nil {
+		return err
+	}
+	// ---- a branch that resolves the contract in the given way
+	branch := func(kind string, upTo int, salt int) ([]*kit.TNode, error) {
+		var out []*kit.TNode
+		cur, done := b2, false
+		for h := 3; h <= upTo; h++ {
+			var txns []types.V2Transaction
+			if !done {
+				bb := kit.NewBlockBuilder(cur.Ledger)
+				if bb.Add(kit.Intent{Kind: kind, Who: renter}) {
+					txn := bb.V2Txns[0]
+					if ren, ok := txn.FileContractResolutions[0].Resolution.(*types.V2FileContractRenewal); ok {
+						// the parties direct the final payouts and the new
+						// contract's outputs wherever they like
+						ren.FinalRenterOutput.Address = payoutAddr(c.FinalR)
+						ren.FinalHostOutput.Address = payoutAddr(c.FinalH)
+						ren.NewContract.RenterOutput.Address = payoutAddr(c.NewR)
+						ren.NewContract.HostOutput.Address = payoutAddr(c.NewH)
+						sign(cur.Ledger.State, &ren.NewContract)
+						ren.RenterSignature, ren.HostSignature = types.Signature{}, types.Signature{}
+						hsh := cur.Ledger.State.RenewalSigHash(*ren)
+						ren.RenterSignature = kit.Actors[renter].SK.SignHash(hsh)
+						ren.HostSignature = kit.Actors[host].SK.SignHash(hsh)
+						kit.SignV2(cur.Ledger.State, &txn)
+					}
+					txns, done = []types.V2Transaction{txn}, true
+				}
+			}
+			n, err := add(cur, txns, salt)
+			if err != nil {
+				return nil, err
+			}
+			cur = n
+			out = append(out, n)
+		}
+		if !done {
+			return nil, fmt.Errorf("INFRA: the kit could not build %s up to height %d", kind, upTo)
+		}
+		return out, nil
+	}
+	kindA, kindB := v2ResolutionKinds[modInt(c.KindA, 3)], v2ResolutionKinds[modInt(c.KindB, 3)]
+	first, err := branch(kindA, 7, 0)
+	if err != nil {
+		return err
+	}
+	var second []*kit.TNode
+	if !c.Only {
+		if second, err = branch(kindB, 10, 7); err != nil {
+			return err
+		}
+		cs.Classf("reorg=%s->%s", kindA, kindB)
+	} else {
+		cs.Classf("only=%s", kindA)
+	}
+	wa := w.Addr
+	involved := fc.RenterOutput.Address == wa || fc.HostOutput.Address == wa
+	if kindA == "v2renew" || (!c.Only && kindB == "v2renew") {
+		cs.Class("renewal")
+		fr, fh := payoutAddr(c.FinalR) == wa, payoutAddr(c.FinalH) == wa
+		if fr != (fc.RenterOutput.Address == wa) || fh != (fc.HostOutput.Address == wa) {
+			cs.Class("renewal-final-output-address-differs-from-the-contract's-for-the-wallet")
+			cs.NonTrivial()
+		}
+		involved = involved || fr || fh
+	}
+	if involved {
+		cs.Class("wallet-receives-a-v2-payout")
+		cs.NonTrivial()
+	}
+	return driveBranches(tr, w, []types.Block{b1.Block, b2.Block}, first, second, c.MidSync, c.Chunk1, c.Chunk2, cs)
+}
+
+var c06V2PayoutsProp = kit.Prop[V2PayoutCase]{
+	ID:   "C06",
+	Rule: "one hand-built v2 contract whose renter and host output addresses are drawn from {wallet, two other actors, void} independently of the parties' keys, resolved by storage proof, renewal (final output addresses and the new contract's output addresses drawn independently as well) or expiration on one branch and, after a reorg to a longer sibling branch, in a second drawn way; full C06 oracle after each sync. Non-trivial = the wallet receives a payout, or a renewal pays the wallet although the contract's output does not (or vice versa).",
+	Gen:  genV2Payouts,
+	Run:  runV2Payouts,
+}
+
+func TestC06V2Payouts(t *testing.T) { c06V2PayoutsProp.Main(t) }
